@@ -19,7 +19,51 @@ CHECKS = {
         design_ref="DESIGN.md 5 C01",
         technique="TLA+ spec (Engine/System) + TLC exhaustive MC + TLC trace validation of real executions + replay of TLC behaviours",
     ),
-}
+    "C02": dict(
+        category="model_checking",
+        text=("TLC checks PhaseOrder / PendingWellFormed / ViewOK on System.tla over small definitions with every callback kind and all "
+              "in-group orders; the trace spec accepts a callback begin only if that callback is pending in the current phase of the "
+              "selected transition (event scoping, internal transitions, initial activation included) with the injected "
+              "state/source/target/event and the current state the callback reads; validated on TLC-generated behaviours and on "
+              "thousands of random machines using every attachment style x provider on both engines."),
+        design_ref="DESIGN.md 5 C02",
+        technique="TLA+ spec + TLC exhaustive MC + TLC trace validation of real executions (callback begin/end lines)",
+    ),
+    "C03": dict(
+        category="model_checking",
+        text=("TLC checks RTCNoNesting (stack bound independent of chain length), QueueFIFO and result delivery over all placements of "
+              "nested sends in small definitions; real executions with nested sends in every group (incl. initial enter), fan-out, "
+              "rtc on/off and both engines are validated line by line (queued vs depth-first, None vs own result, first result to the "
+              "outer caller); self-triggering chains of 1500-5000 events must run at constant Python stack depth."),
+        design_ref="DESIGN.md 5 C03",
+        technique="TLA+ spec + TLC exhaustive MC + TLC trace validation + long-chain stack-depth measurement",
+    ),
+    "C04": dict(
+        category="model_checking",
+        text=("Fault enumeration inside the model (TLC: every callback invocation of every behaviour may raise; FailureState, Quiescent, "
+              "DroppedNeverRun) and on the real code: each scenario is run once per crash point (k-th callback invocation raises) and "
+              "continued with further sends; every execution is validated against the spec, so wrong state after failure, a queue "
+              "that is not cleared, a lock that is not released or a swallowed exception make the trace unexplainable."),
+        design_ref="DESIGN.md 5 C04",
+        technique="TLA+ spec + TLC exhaustive MC with failure budget + crash-point sweep on the implementation validated by TLC",
+    ),
+    "C05": dict(
+        category="model_checking",
+        text=("One specification for both engines (async changes three explicit switches); TLC explores all in-group interleavings of "
+              "gathered coroutine callbacks; scenarios from the C01-C04/C14 generators are run as twins (plain functions vs all / single / "
+              "mixed coroutines, 0-2 suspensions, drivers: no loop, in-loop, threads in turn), each execution validated against the same "
+              "trace spec (a phase may not be left while a started coroutine is open), twins compared pairwise, pending tasks detected."),
+        design_ref="DESIGN.md 5 C05",
+        technique="TLA+ spec shared by both engines + TLC MC + TLC trace validation of twin executions + orphan-task detection",
+    ),
+    "C14": dict(
+        category="model_checking",
+        text=("Result rule (MkRes, Deliver) in the spec; real callbacks return unique objects so the recorder classifies an event's result by "
+              "identity; executions with 0-3 before x 0-3 on callbacks in every style/provider, marker values in all other groups, "
+              "tolerated unknown events, both engines, are validated against the spec."),
+        design_ref="DESIGN.md 5 C14",
+        technique="TLA+ spec + TLC MC + TLC trace validation with identity-classified results",
+    ),}
 
 NA_DEFAULT = "check not built yet (work in progress; will be claimed once its TLA+ model and conformance harness are committed)"
 NA = {}
